@@ -1,6 +1,10 @@
 SPECIFICATION Spec
 CONSTANTS
   NB = @NB@
+  NPred = @NPRED@
+  WithLit = @WITHLIT@
+  NIriLabels = @NIRILABELS@
+  BlankLabels = @BLANKLABELS@
   MinQ = @MINQ@
   MaxQ = @MAXQ@
   Shard = @SHARD@
